@@ -124,7 +124,12 @@ impl PhysLayer {
                 x.write_all(data).await
             }
             #[cfg(feature = "enable-tls")]
-            PhysLayerImpl::Tls(x) => x.write_all(data).await,
+            PhysLayerImpl::Tls(x) => {
+                // records the TLS layer could not hand to the socket at once would otherwise
+                // stay in its buffer until the next write
+                x.write_all(data).await?;
+                x.flush().await
+            }
             #[cfg(test)]
             PhysLayerImpl::Mock(x) => x.write_all(data).await,
             #[cfg(feature = "verif-hooks")]
